@@ -50,6 +50,10 @@ def rx_strategy():
             cuts = sorted(draw(st.lists(st.one_of(st.integers(0, total), st.sampled_from([c for c in (mf - 1, mf, mf + 1, mm - 1, mm, mm + 1) if 0 <= c <= total] or [0])),
                                         min_size=nfrag - 1, max_size=nfrag - 1)))
             msgs.append({"total": total, "cuts": cuts, "bin": draw(st.booleans()), "z": draw(st.booleans())})
+        if draw(st.integers(0, 5)) == 0:
+            low = draw(st.sampled_from([0, 1, 10, max(0, lim - 1), lim, 125, 65535]))
+            msgs.append({"total": 0, "cuts": [], "bin": draw(st.booleans()), "huge": draw(st.sampled_from([1, 2, 256, 2 ** 30, 2 ** 31 - 1])) * 2 ** 32 + low,
+                         "after_fragment": draw(st.booleans())})
         return {"server": draw(st.booleans()), "fbd": draw(st.booleans()), "comp": draw(st.integers(0, 2)) == 0, "mf": mf, "mm": mm, "msgs": msgs,
                 "ping_between": draw(st.booleans()),
                 # the application has already asked for a close (our close frame is out, the peer's reply is not in yet): data still arrives and limits still apply
@@ -97,6 +101,22 @@ def check_receive(c):
     failed = False
     header_only_seen = False
     for mi, m in enumerate(c["msgs"]):
+        if m.get("huge"):
+            # a frame announcing a size far beyond any limit (>= 4 GiB: the upper half of the 64-bit length field is in use); only its header ever arrives
+            n_decl = m["huge"]
+            op = 2 if m["bin"] else 1
+            if m.get("after_fragment"):
+                rx.feed(ref6455.encode_frame(op, b"a", fin=False, mask=mk))
+                op = 0
+            hdr = ref6455.encode_frame(op, b"", fin=True, mask=mk, declared_len=n_decl, len_form=127, header_only=True)
+            rx.feed(hdr)
+            header_only_seen = True
+            check_failed_now(rx, c, "after the header of a frame announcing %d octets (2^32*%d + %d)" % (n_decl, n_decl >> 32, n_decl & 0xFFFFFFFF))
+            # whatever follows (as many octets as the low 32 bits announce, then another frame) must not turn into a message
+            rx.feed(bytes(min(n_decl & 0xFFFFFFFF, 2000)))
+            rx.feed(ref6455.encode_frame(1, b"after", mask=mk))
+            failed = True
+            break
         payload = pattern(m["total"], mi) if m["bin"] else utf8_text(m["total"], mi)
         deliver = payload
         rsv1 = 0
@@ -181,9 +201,9 @@ def check_failed_now(rx, c, when):
 def receive(col, seed, n):
     def body(c):
         failed, ho = check_receive(c)
-        near = any(abs(m["total"] - l) <= 1 for m in c["msgs"] for l in (c["mf"], c["mm"]) if l)
+        near = any(abs(m["total"] - l) <= 1 for m in c["msgs"] if not m.get("huge") for l in (c["mf"], c["mm"]) if l)
         col.case(near or ho, dig=c, cls=["rx/" + ("limit-hit" if failed else "within-limits"), "rx/role:" + ("server" if c["server"] else "client"),
-                                        "rx/fbd=%s" % c["fbd"]] + (["rx/compression"] if c["comp"] else []) + (["rx/compressed-message"] if c["comp"] and any(m.get("z") and (m["total"] == 1 or m["total"] >= 6) for m in c["msgs"]) else []) + (["rx/header-only"] if ho else []) + (["rx/while-closing"] if c.get("closing") else []),
+                                        "rx/fbd=%s" % c["fbd"]] + (["rx/compression"] if c["comp"] else []) + (["rx/compressed-message"] if c["comp"] and any(m.get("z") and (m["total"] == 1 or m["total"] >= 6) for m in c["msgs"]) else []) + (["rx/header-only"] if ho else []) + (["rx/announced>=4GiB"] if any(m.get("huge") for m in c["msgs"]) else []) + (["rx/while-closing"] if c.get("closing") else []),
                  sample={"mf": c["mf"], "mm": c["mm"], "msgs": [(m["total"], m["cuts"]) for m in c["msgs"]], "role": "server" if c["server"] else "client"})
     run_hypothesis(col, "rx", rx_strategy(), body, n, seed)
 
